@@ -9,7 +9,7 @@ use std::{
     ops::Not,
     sync::{
         Arc,
-        atomic::{AtomicUsize, Ordering},
+        atomic::{AtomicU64, AtomicUsize, Ordering},
     },
 };
 
@@ -85,12 +85,18 @@ enum Entry<C> {
 pub struct VersionedOperation<V> {
     op: Operation<V>,
     epoch: Epoch,
+
+    /// The position of the operation in the order it was issued; orders the
+    /// operations that belong to the same epoch.
+    seq: u64,
 }
 
 impl<V> Eq for VersionedOperation<V> {}
 
 impl<V> PartialEq for VersionedOperation<V> {
-    fn eq(&self, other: &Self) -> bool { self.epoch.eq(&other.epoch) }
+    fn eq(&self, other: &Self) -> bool {
+        self.epoch.eq(&other.epoch) && self.seq.eq(&other.seq)
+    }
 }
 
 impl<V> PartialOrd for VersionedOperation<V> {
@@ -101,7 +107,9 @@ impl<V> PartialOrd for VersionedOperation<V> {
 
 impl<V> Ord for VersionedOperation<V> {
     fn cmp(&self, other: &Self) -> std::cmp::Ordering {
-        self.epoch.cmp(&other.epoch)
+        // Reverse order for min-heap behavior: the oldest operation is at
+        // the top, so that flushing can pop everything up to an epoch.
+        other.epoch.cmp(&self.epoch).then(other.seq.cmp(&self.seq))
     }
 }
 
@@ -120,6 +128,7 @@ enum ConcurrentLogMessage<V> {
 struct ConcurrentLog<V> {
     log: RwLock<BinaryHeap<VersionedOperation<V>>>,
     deferred_messages: SegQueue<ConcurrentLogMessage<V>>,
+    next_seq: AtomicU64,
 }
 
 impl<V: Eq + Hash + Clone> ConcurrentLog<V> {
@@ -127,8 +136,11 @@ impl<V: Eq + Hash + Clone> ConcurrentLog<V> {
         Self {
             log: RwLock::new(BinaryHeap::new()),
             deferred_messages: SegQueue::new(),
+            next_seq: AtomicU64::new(0),
         }
     }
+
+    fn next_seq(&self) -> u64 { self.next_seq.fetch_add(1, Ordering::SeqCst) }
 
     fn apply_message(&self, op: ConcurrentLogMessage<V>) {
         let Some(mut lock) = self.log.try_write() else {
@@ -180,17 +192,21 @@ impl<V: Eq + Hash + Clone> ConcurrentLog<V> {
         let mut added = HashSet::with_hasher(FxBuildHasher::default());
         let mut removed = HashSet::with_hasher(FxBuildHasher::default());
 
-        for op in log.iter() {
+        // The store may already contain any prefix of the logged operations,
+        // so the overlay must say for every element what its latest operation
+        // is: replay in issue order, the last operation wins.
+        let mut ops = log.iter().collect::<Vec<_>>();
+        ops.sort_unstable_by_key(|op| (op.epoch, op.seq));
+
+        for op in ops {
             match &op.op {
                 Operation::Insert(v) => {
-                    if removed.remove(v).not() {
-                        added.insert(v.clone());
-                    }
+                    removed.remove(v);
+                    added.insert(v.clone());
                 }
                 Operation::Remove(v) => {
-                    if added.remove(v).not() {
-                        removed.insert(v.clone());
-                    }
+                    added.remove(v);
+                    removed.insert(v.clone());
                 }
             }
         }
@@ -539,8 +555,10 @@ impl<
 
         // apply the operation to the log
         {
+            let seq = log.next_seq();
+
             log.apply_message(ConcurrentLogMessage::AppendOperation(
-                VersionedOperation { op: op.clone(), epoch },
+                VersionedOperation { op: op.clone(), epoch, seq },
             ));
         }
 
